@@ -1,4 +1,4 @@
-SPECIFICATION SpecD
+SPECIFICATION Spec
 CONSTANTS
  Writers = {"w1", "w2"}
  OpsPerWriter = 1
@@ -11,5 +11,5 @@ CONSTANTS
  DoClose = TRUE
  ReleaseThrottle = FALSE
  Deviations = {"DrainChecksQueueLenFirst"}
-INVARIANT Safety
-CHECK_DEADLOCK TRUE
+PROPERTY EveryCallReturns
+CHECK_DEADLOCK FALSE
